@@ -35,6 +35,16 @@ CHECKS = {
         technique="TLA+ definition of structural equivalence (positional bijection of values and blocks, IRIso.tla) evaluated by TLC as reference; real is_structurally_equivalent compared on generated IR, clones and single-point mutants",
         text="For generated trees, their clones and clones with one mutation of each kind (result/arg type, attribute added/removed/changed, property changed or moved to the attribute dictionary, operand rewired internally or to an outside value, successor, block order, op order, op name, extra op) the real check is asked in both directions on ops (detached and attached), regions and blocks; TLC evaluates the property's definition on the projection and every disagreement is a violation.",
         note="Trusted: IRIso.tla is the property's relation; attribute/type equality is Python == via interned tokens; mutants are produced with the real API."),
+    "C11": dict(
+        category="model_checking", design_ref="DESIGN.md §3.4, §4 C11",
+        technique="TLA+ transcription of PatternRewriteWalker with nondeterministic pop order model-checked by TLC; real walker runs (perturbed worklist, instrumented PatternRewriter calls, listener log) monitored by a TLA+ trace spec",
+        text="Greedy.tla explores every pop order of the transcribed driver on small IRs over a terminating pattern menu (InvokedOpsAreLive, EveryMutationNotified, ReturnsChanged, Fixpoint). The real walker runs real patterns implementing that menu plus block-argument / inline-block / use-forwarding patterns on generated modules in all 8 walk configurations with LIFO and perturbed pop orders, with and without a post-walk function; each run's event log (invocations with attachment state, every rewriter call with owed vs delivered listener events and the action flag, IR-change bits, return value, post-walk re-application on a clone) is validated by GreedyTrace.tla. canonicalize on corpus modules is traced with the call-based clauses.",
+        note="Trusted: the obligation table (which listener events each rewriter call owes, DESIGN §4 C11); IR change detected by printing the module; pattern sets are terminating by construction."),
+    "C25": dict(
+        category="model_checking", design_ref="DESIGN.md §3.6, §4 C25",
+        technique="TLA+ transcription of the sparse backward liveness analysis + solver loop with an arbitrary-choice worklist, model-checked from every small program; real DataFlowSolver run under randomized schedules and load orders, final lattices judged by TLC against the declarative least fixpoint",
+        text="TLC checks on every program with <=2 (thorough: 3) ops, every seed set, both load modes and EVERY drain order that the analysis ends in the least fixpoint and never overshoots it. The real solver is run on that program space and on generated programs with 3-9 ops (multi-result ops, read/write/unknown effects) with its worklist replaced by a random-pop deque, in three analysis load orders; TLC compares every final lattice with the declarative fixpoint and schedules must agree.",
+        note="Trusted: DataflowDefs.tla's fixpoint is the property's definition; boundary liveness is seeded through the lattice API (no public-function caller exists yet)."),
 }
 
 NOT_APPLICABLE = {
